@@ -24,6 +24,7 @@
 #include <memory>
 #include <tuple>
 #include <mutex>
+#include <optional>
 #include <shared_mutex>
 #include <random>
 #include <thread>
@@ -223,12 +224,15 @@ public:
         if (r) rt_atomic_written(&st_, true); else rt_atomic_loaded(&st_, bits(e));
         return r;
     }
+    // the weak forms may fail spuriously (a seeded decision; tlx uses neither form today)
     bool compare_exchange_weak(T& e, T d,
                                ::std::memory_order o = ::std::memory_order_seq_cst) noexcept {
+        if (rt_choice(2, 150) != 0) { rt_point(); return false; }
         return compare_exchange_strong(e, d, o);
     }
     bool compare_exchange_weak(T& e, T d, ::std::memory_order s,
                                ::std::memory_order f) noexcept {
+        if (rt_choice(2, 150) != 0) { rt_point(); return false; }
         return compare_exchange_strong(e, d, s, f);
     }
     template <class U>
@@ -313,7 +317,13 @@ public:
             [tid](typename ::std::decay<F>::type&& fn,
                   typename ::std::decay<A>::type&&... args) {
                 rt_thread_begin(tid);
-                ::std::invoke(::std::move(fn), ::std::move(args)...);
+                {
+                    // the callable and its arguments die inside the simulated life of the thread (the
+                    // originals in ::std::thread's own storage are only moved-from shells afterwards)
+                    typename ::std::decay<F>::type f2(::std::move(fn));
+                    ::std::tuple<typename ::std::decay<A>::type...> a2(::std::move(args)...);
+                    ::std::apply([&f2](auto&&... x) { ::std::invoke(::std::move(f2), ::std::move(x)...); }, a2);
+                }
                 rt_thread_end(tid);
             },
             ::std::forward<F>(f), ::std::forward<A>(a)...);
@@ -328,61 +338,164 @@ public:
         tid_ = -1;
         rt_thread_joined(tid);
     }
+    void detach() { rt_thread_detach(tid_); real_.detach(); tid_ = -1; }
     id get_id() const noexcept { return real_.get_id(); }
     native_handle_type native_handle() { return real_.native_handle(); }
     void swap(Thread& o) noexcept { real_.swap(o.real_); ::std::swap(tid_, o.tid_); }
     static unsigned hardware_concurrency() noexcept { return rt_hw_concurrency(); }
 };
 
-// std::async / std::future inside namespace tlx: the task runs on a simulated thread (a real
-// std::async thread would run outside the scheduler).  launch::deferred runs the task in get()/wait().
+// std::async / std::future / std::promise / std::packaged_task / std::call_once inside namespace tlx:
+// the real ones block in libstdc++ (outside the scheduler) and std::async starts an unsimulated thread.
+// Here an async task runs on a simulated thread, launch::deferred runs in get()/wait(), and readiness is
+// a flag under a simulated mutex + condition variable.
+template <class R>
+struct FutureState {
+    Mutex m;
+    CondVar cv;
+    bool ready = false;
+    bool retrieved = false;
+    Thread th;                                  // async task, joined by whoever waits
+    ::std::function<void()> deferred;
+    typename ::std::conditional< ::std::is_void<R>::value, char, ::std::optional<typename ::std::conditional< ::std::is_void<R>::value, char, R>::type> >::type value{};
+    ::std::exception_ptr error;
+    void make_ready() { { ::std::lock_guard<Mutex> g(m); ready = true; } cv.notify_all(); }
+    bool is_ready() { ::std::lock_guard<Mutex> g(m); return ready; }
+    void wait() {
+        if (deferred) { auto f = ::std::move(deferred); deferred = nullptr; f(); }
+        {
+            ::std::unique_lock<Mutex> l(m);
+            while (!ready) cv.wait(l);
+        }
+        if (th.joinable()) th.join();
+    }
+};
+
 template <class R>
 class Future {
-    struct State {
-        Thread th;
-        ::std::function<void()> deferred;
-        typename ::std::conditional< ::std::is_void<R>::value, char, R>::type value{};
-        ::std::exception_ptr error;
-        bool done = false;
-    };
+    using State = FutureState<R>;
     ::std::shared_ptr<State> st_;
-    void finish() {
-        if (!st_ || st_->done) return;
-        if (st_->deferred) { auto f = ::std::move(st_->deferred); st_->deferred = nullptr; f(); }
-        else if (st_->th.joinable()) st_->th.join();
-        st_->done = true;
-    }
+    bool async_ = false;    // a future from std::async waits in its destructor
 
 public:
     Future() = default;
-    Future(Future&&) noexcept = default;
-    Future& operator=(Future&& o) noexcept { if (this != &o) { if (st_ && st_.use_count() == 1) finish(); st_ = ::std::move(o.st_); } return *this; }
-    ~Future() { if (st_ && st_.use_count() == 1) finish(); }   // like a future from std::async, the last one waits
+    explicit Future(::std::shared_ptr<State> s, bool a = false) : st_(::std::move(s)), async_(a) {}
+    Future(Future&& o) noexcept : st_(::std::move(o.st_)), async_(o.async_) { o.async_ = false; }
+    Future& operator=(Future&& o) noexcept {
+        if (this != &o) { if (st_ && async_) st_->wait(); st_ = ::std::move(o.st_); async_ = o.async_; o.async_ = false; }
+        return *this;
+    }
+    ~Future() { if (st_ && async_) st_->wait(); }
     bool valid() const noexcept { return bool(st_); }
-    void wait() { finish(); }
+    void wait() const { st_->wait(); }
+    template <class Rep, class Period>
+    ::std::future_status wait_for(const ::std::chrono::duration<Rep, Period>& d) const {
+        if (st_->deferred) return ::std::future_status::deferred;
+        ::std::unique_lock<Mutex> l(st_->m);
+        if (!st_->ready) st_->cv.wait_for(l, d);
+        return st_->ready ? ::std::future_status::ready : ::std::future_status::timeout;
+    }
+    template <class Clock, class Dur>
+    ::std::future_status wait_until(const ::std::chrono::time_point<Clock, Dur>&) const { return wait_for(::std::chrono::seconds(1)); }
     R get() {
-        finish();
+        st_->wait();
         auto s = ::std::move(st_);
+        async_ = false;
         if (s->error) ::std::rethrow_exception(s->error);
-        return static_cast<R>(::std::move(s->value));
+        return take(*s, ::std::is_void<R>());
     }
     template <class F>
     static Future make(::std::launch policy, F&& task) {
-        Future fu;
-        fu.st_ = ::std::make_shared<State>();
-        State* sp = fu.st_.get();
-        auto body = [sp, t = ::std::forward<F>(task)]() mutable {
-            try { run(sp, t, ::std::is_void<R>()); } catch (...) { sp->error = ::std::current_exception(); }
+        auto sp = ::std::make_shared<State>();
+        State* raw = sp.get();
+        auto body = [raw, t = ::std::forward<F>(task)]() mutable {
+            try { run(raw, t, ::std::is_void<R>()); } catch (...) { raw->error = ::std::current_exception(); }
+            raw->make_ready();
         };
-        if ((int(policy) & int(::std::launch::async)) != 0) sp->th = Thread(::std::move(body));
-        else sp->deferred = ::std::move(body);
-        return fu;
+        if ((int(policy) & int(::std::launch::async)) != 0) raw->th = Thread(::std::move(body));
+        else raw->deferred = ::std::move(body);
+        return Future(::std::move(sp), true);
     }
+    template <class T> static void run(State* sp, T& t, ::std::true_type) { t(); }
+    template <class T> static void run(State* sp, T& t, ::std::false_type) { sp->value.emplace(t()); }
 
 private:
-    template <class T> static void run(State* sp, T& t, ::std::true_type) { t(); }
-    template <class T> static void run(State* sp, T& t, ::std::false_type) { sp->value = t(); }
+    static void take(State&, ::std::true_type) {}
+    static R take(State& s, ::std::false_type) { return static_cast<R>(::std::move(*s.value)); }
 };
+
+template <class R>
+class Promise {
+    using State = FutureState<R>;
+    ::std::shared_ptr<State> st_ = ::std::make_shared<State>();
+    void check() const { if (!st_) throw ::std::future_error(::std::future_errc::no_state); if (st_->is_ready()) throw ::std::future_error(::std::future_errc::promise_already_satisfied); }
+
+public:
+    Promise() = default;
+    Promise(Promise&&) noexcept = default;
+    Promise& operator=(Promise&& o) noexcept { abandon(); st_ = ::std::move(o.st_); return *this; }
+    ~Promise() { abandon(); }
+    void swap(Promise& o) noexcept { st_.swap(o.st_); }
+    Future<R> get_future() {
+        if (!st_) throw ::std::future_error(::std::future_errc::no_state);
+        if (st_->retrieved) throw ::std::future_error(::std::future_errc::future_already_retrieved);
+        st_->retrieved = true;
+        return Future<R>(st_);
+    }
+    template <class U = R, class = typename ::std::enable_if<!::std::is_void<U>::value>::type>
+    void set_value(const U& v) { check(); st_->value.emplace(v); st_->make_ready(); }
+    template <class U = R, class = typename ::std::enable_if<!::std::is_void<U>::value>::type>
+    void set_value(U&& v) { check(); st_->value.emplace(::std::move(v)); st_->make_ready(); }
+    template <class U = R, class = typename ::std::enable_if< ::std::is_void<U>::value>::type>
+    void set_value() { check(); st_->make_ready(); }
+    void set_exception(::std::exception_ptr e) { check(); st_->error = e; st_->make_ready(); }
+
+private:
+    void abandon() {
+        if (st_ && st_->retrieved && !st_->is_ready()) {
+            st_->error = ::std::make_exception_ptr(::std::future_error(::std::future_errc::broken_promise));
+            st_->make_ready();
+        }
+    }
+};
+
+template <class Sig> class PackagedTask;
+template <class R, class... A>
+class PackagedTask<R(A...)> {
+    ::std::function<R(A...)> fn_;
+    Promise<R> pr_;
+    template <class... X> void call(::std::true_type, X&&... x) { fn_(::std::forward<X>(x)...); pr_.set_value(); }
+    template <class... X> void call(::std::false_type, X&&... x) { pr_.set_value(fn_(::std::forward<X>(x)...)); }
+
+public:
+    PackagedTask() = default;
+    template <class F, class = typename ::std::enable_if<!::std::is_same<typename ::std::decay<F>::type, PackagedTask>::value>::type>
+    explicit PackagedTask(F&& f) : fn_(::std::forward<F>(f)) {}
+    PackagedTask(PackagedTask&&) noexcept = default;
+    PackagedTask& operator=(PackagedTask&&) noexcept = default;
+    bool valid() const noexcept { return bool(fn_); }
+    Future<R> get_future() { return pr_.get_future(); }
+    void operator()(A... a) {
+        try { call(::std::is_void<R>(), ::std::forward<A>(a)...); } catch (const ::std::future_error&) { throw; } catch (...) { pr_.set_exception(::std::current_exception()); }
+    }
+};
+
+class OnceFlag {
+    Mutex m_;
+    bool done_ = false;
+    template <class F, class... A> friend void call_once_shim(OnceFlag&, F&&, A&&...);
+
+public:
+    OnceFlag() noexcept = default;
+    OnceFlag(const OnceFlag&) = delete;
+};
+template <class F, class... A>
+void call_once_shim(OnceFlag& o, F&& f, A&&... a) {
+    ::std::lock_guard<Mutex> g(o.m_);      // an exception leaves the flag unset, as std::call_once does
+    if (o.done_) return;
+    ::std::invoke(::std::forward<F>(f), ::std::forward<A>(a)...);
+    o.done_ = true;
+}
 
 template <class F, class... A>
 Future<typename ::std::invoke_result<typename ::std::decay<F>::type, typename ::std::decay<A>::type...>::type>
@@ -454,6 +567,11 @@ using shared_mutex = ::sim::SharedMutex;
 using shared_timed_mutex = ::sim::SharedMutex;
 using atomic_flag = ::sim::AtomicFlag;
 template <class R> using future = ::sim::Future<R>;
+template <class R> using promise = ::sim::Promise<R>;
+template <class S> using packaged_task = ::sim::PackagedTask<S>;
+using once_flag = ::sim::OnceFlag;
+template <class F, class... A>
+void call_once(once_flag& o, F&& f, A&&... a) { ::sim::call_once_shim(o, ::std::forward<F>(f), ::std::forward<A>(a)...); }
 template <class F, class... A>
 auto async(::std::launch policy, F&& f, A&&... a) { return ::sim::async_shim(policy, ::std::forward<F>(f), ::std::forward<A>(a)...); }
 template <class F, class... A, class = typename ::std::enable_if<!::std::is_same<typename ::std::decay<F>::type, ::std::launch>::value>::type>
